@@ -52,7 +52,8 @@ def concretize(c, slow, tag, marker, dur):
     prog = '%s %s %s %s' % (slow, tag, c['child'], dur)
     conf, setup, act, ba, asrt, cleanup = [], [], [], [], [], []
     tmo = {'default': [], 'set-before': ['timeout = 1'], 'none-then-set': ['timeout = none', 'timeout = 1'],
-           'set-then-none': ['timeout = 1', 'timeout = none'], 'set-after': []}[c['hist']]
+           'set-then-none': ['timeout = 1', 'timeout = none'], 'set-after': [],
+           'decl-then-set': [], 'set-decl-none': ['timeout = 1']}[c['hist']]
     setup += tmo
     if c['env']:
         setup.append('env VERIF_E = 1')
@@ -70,6 +71,10 @@ def concretize(c, slow, tag, marker, dur):
             act = ['exec %s %s %s %s' % (slow, tag, c['child'], dur)]
         else:
             setup.append('stdin = -stdout-from %s' % prog)
+            if c['hist'] == 'decl-then-set':        # in force when the process starts, in [act]
+                setup.append('timeout = 1')
+            elif c['hist'] == 'set-decl-none':
+                setup.append('timeout = none')
             act = ['$ cat > /dev/null']
         if c['hist'] == 'set-after':
             ba.append('timeout = 1')
@@ -171,7 +176,10 @@ def sig(c):
 def select_quick(cases, rnd):
     out = []
     for c in cases:
-        if c['killed']:
+        if c['hist'] in ('decl-then-set', 'set-decl-none'):
+            if not c['env'] and c['child'] != 'stubborn':
+                out.append(c)
+        elif c['killed']:
             if c['hist'] == 'set-before' and (c['env'] or c['place'] != 'act') and not (c['env'] and c['place'] not in ('act', 'setup')):
                 out.append(c)
             elif c['hist'] == 'none-then-set' and c['use'] in ('run', 'actor-command-line') and not c['env']:
@@ -188,7 +196,7 @@ def select_quick(cases, rnd):
 def run(ctx):
     quick = ctx.tier == 'quick'
     rnd = random.Random(ctx.seed)
-    hists = ['default', 'set-before', 'set-after', 'none-then-set', 'set-then-none']
+    hists = ['default', 'set-before', 'set-after', 'none-then-set', 'set-then-none', 'decl-then-set', 'set-decl-none']
     mc = ctx.tlc('Timeout', cfg(hists), coverage=True, name='mc')
     ctx.require_coverage(mc, ['Start', 'Tick', 'ChildExit', 'Kill', 'ExecStep'])
     ctx.tlc('Timeout', cfg(['set-before', 'set-after'], spec='TFairSpec', invariants=[], props=['Returns']),
@@ -234,7 +242,7 @@ def run(ctx):
                         observed=dict(ident=obs[j].get('ident'), wall=obs[j].get('wall'), cleanup_marker=obs[j].get('marker'))))
     ctx.cov['exhaustive'] = not quick
     ctx.cov['rule'] = ('cases of Timeout.tla: 29 places (phase x kind of program use, incl. the four actors and stdin from a '
-                       'program) x child {short, long, ignores SIGTERM} x 5 timeout histories x env in [setup] or not; '
+                       'program) x child {short, long, ignores SIGTERM} x 7 timeout histories x env in [setup] or not; '
                        + ('quick tier: every place with a child that must be killed (timeout set before), env variants '
                           'for act and setup, and a selection of must-not-be-killed cases; ' if quick else 'all of them; ')
                        + 'run with real processes and wall-clock time; non-trivial = every distinct case')
